@@ -178,10 +178,19 @@ func runCheck(def *CheckDef, tier string, seed int, noKnown, noReplay bool, only
 		if js.Harness != "root" {
 			pkg += "/" + js.Harness
 		}
-		lim := sx.Limits{Workers: workers, MaxPaths: js.MaxPaths, ConcCap: js.ConcCap, MaxSteps: js.MaxSteps}
-		if js.Budget > 0 {
-			lim.Deadline = time.Now().Add(js.Budget)
+		lim := sx.Limits{Workers: workers, MaxPaths: js.MaxPaths, ConcCap: js.ConcCap, MaxSteps: js.MaxSteps, MaxViolations: 40}
+		if js.Witness {
+			lim.MaxViolations = 1
 		}
+		budget := js.Budget
+		if budget == 0 {
+			// no job may run away: exceeding the budget is reported as inconclusive
+			budget = 10 * time.Minute
+			if tier == "thorough" {
+				budget = 90 * time.Minute
+			}
+		}
+		lim.Deadline = time.Now().Add(budget)
 		if tier == "thorough" {
 			lim.QueryMs = 60000
 		}
@@ -238,7 +247,7 @@ func runCheck(def *CheckDef, tier string, seed int, noKnown, noReplay bool, only
 		qs.unknown += r.Queries.Unknown
 		qs.errs += r.Queries.Errors
 		solverT += r.Queries.Time
-		if r.Incomplete != "" {
+		if r.Incomplete != "" && !r.StoppedOnViolations {
 			inconclusive = append(inconclusive, o.spec.Name+": "+r.Incomplete)
 		}
 		crossQ += r.CrossQueries
